@@ -66,7 +66,7 @@ func (h *H) segCases() {
 			}
 		})
 	}
-	nPer := r.Pick(400, 20000)
+	nPer := r.Pick(2000, 25000)
 	for b := 0; b < 16; b++ {
 		b := b
 		r.Bubble(fmt.Sprintf("seg/prng/%02d", b), func(c *mon.Case) {
@@ -86,7 +86,7 @@ func (h *H) segCases() {
 		b := b
 		r.Bubble(fmt.Sprintf("seg/policy/%d", b), func(c *mon.Case) {
 			rng := mon.NewRand(r.Sub("segpolicy", b))
-			for i := 0; i < r.Pick(250, 8000); i++ {
+			for i := 0; i < r.Pick(1000, 8000); i++ {
 				sc := h.genValid("seg/policy", rng)
 				switch b {
 				case 0:
@@ -180,7 +180,7 @@ func (h *H) malformedCases() {
 	})
 	r.Bubble("malformed/auth/len0", func(c *mon.Case) {
 		rng := mon.NewRand(r.Sub("len0"))
-		for i := 0; i < r.Pick(100, 3000); i++ {
+		for i := 0; i < r.Pick(400, 3000); i++ {
 			_, enc := genEncoded(rng, 2+rng.IntN(250), i%2 == 0)
 			if i < 3 {
 				enc = []string{"k=v", "key=value", "shared-secret=rahasia;secrets-file=/tmp/blob"}[i]
@@ -220,6 +220,9 @@ func (h *H) malformedCases() {
 				class = "malformed/request/cmd-bind-udp"
 			}
 			h.malformedVariants(c, class, okG, okA, q, stR, 1, x)
+			if x == socks.CmdBind {
+				r.Sample(map[string]any{"kind": class, "greeting": hx(okG), "auth": hx(okA), "request": hx(q), "expect": "Handshake error; server bytes = 0502 0100 then nothing or one reply with REP != 0"})
+			}
 			h.eval(c, classify(class, okG0, nil, q))
 		}
 	})
@@ -306,6 +309,9 @@ func (h *H) truncCases() {
 				sc.limit, sc.silence = k, true
 				sc.mustFail(stageOf(k, lens))
 				h.eval(c, sc)
+				if ex == 1 && k == lens[0]+1 {
+					r.Sample(map[string]any{"kind": "trunc/silence", "exchange": e.name, "client_bytes_sent": k, "of": total, "expect": "Handshake error (deadline or EOF), no positive reply beyond the completed stages"})
+				}
 			}
 		})
 	}
@@ -320,7 +326,7 @@ func (h *H) trailingCases() {
 	r := h.r
 	r.Bubble("trailing/all", func(c *mon.Case) {
 		rng := mon.NewRand(r.Sub("trailing"))
-		for i := 0; i < r.Pick(150, 6000); i++ {
+		for i := 0; i < r.Pick(600, 6000); i++ {
 			base := h.genValid("trailing", rng)
 			if base.class != "trailing" || base.mExp != socks.MethodUserPass {
 				continue
@@ -412,7 +418,7 @@ func mutate(rng *rand.Rand, b []byte) []byte {
 // fuzzCases: mutated and random messages, judged by the reference readers.
 func (h *H) fuzzCases() {
 	r := h.r
-	nPer := r.Pick(500, 30000)
+	nPer := r.Pick(2500, 35000)
 	for b := 0; b < 16; b++ {
 		b := b
 		r.Bubble(fmt.Sprintf("fuzz/mutate/%02d", b), func(c *mon.Case) {
